@@ -101,7 +101,8 @@ impl ohkami_lib::Stream for OneMessage {
 }
 
 fn status_of(t: &str) -> Status {
-    match t { "s204" => Status::NoContent, "s404" => Status::NotFound, "s304" => Status::NotModified, "s500" => Status::InternalServerError, "s201" => Status::Created, _ => Status::OK }
+    match t { "s204" => Status::NoContent, "s404" => Status::NotFound, "s304" => Status::NotModified, "s500" => Status::InternalServerError, "s201" => Status::Created,
+              "s205" => Status::ResetContent, "s206" => Status::PartialContent, "s301" => Status::MovedPermanently, "s400" => Status::BadRequest, _ => Status::OK }
 }
 fn len_of(t: &str) -> usize { t.trim_start_matches('n').parse().unwrap_or(0) }
 
@@ -220,7 +221,7 @@ pub fn gen(rng: &mut Rng, i: usize) -> Value {
                          json!(["body", k, if k == "json" && (l == "n0" || l == "n1") { "n3" } else { l }]) }
             90..=92 => json!(["drop"]),
             93..=94 => json!(["rebuild"]),
-            _ => json!(["status", *rng.pick(&["s200", "s204", "s404", "s201", "s500"])]),
+            _ => json!(["status", *rng.pick(&["s200", "s204", "s404", "s201", "s500", "s205", "s206", "s301", "s400"])]),
         });
     }
     json!({"id": i, "ops": ops, "method": if rng.chance(1, 4) { "HEAD" } else { "GET" }, "seed": rng.next() % 100000})
